@@ -10,6 +10,12 @@ namespace c02 {
 struct Opt_key8 : Gudhi::Simplex_tree_options_default {   // 8-bit keys: at most 255 simplices can be numbered
   typedef std::uint8_t Simplex_key;
 };
+struct Opt_keyi8 : Gudhi::Simplex_tree_options_default {  // signed 8-bit keys (null_key = -1): at most 127 simplices
+  typedef std::int8_t Simplex_key;
+};
+struct Opt_intfv : Gudhi::Simplex_tree_options_default {  // integral filtration values: no infinity, filtration(null_simplex()) = INT_MAX
+  typedef int Filtration_value;
+};
 
 template <class St>
 void build_tree(vh::Rng& r, const FModel& M, St& st) {
@@ -31,8 +37,9 @@ void build_tree(vh::Rng& r, const FModel& M, St& st) {
 }
 
 // reads the exposed filtration order of a Simplex_tree.  `order` receives the vertex words.
+// ignore_inf: the filtration was initialised with ignore_infinite_values = true, the simplices at +infinity must be absent from it
 template <class St>
-bool expose_tree(vh::Case& c, St& st, const FModel& M, Exposure& E, std::vector<Simplex>& order, const std::string& sig0) {
+bool expose_tree(vh::Case& c, St& st, const FModel& M, Exposure& E, std::vector<Simplex>& order, const std::string& sig0, bool ignore_inf = false) {
   order.clear(); E.vals.clear();
   for (auto sh : st.filtration_simplex_range()) {
     Simplex s; for (auto v : st.simplex_vertex_range(sh)) s.push_back((long)v);
@@ -42,21 +49,44 @@ bool expose_tree(vh::Case& c, St& st, const FModel& M, Exposure& E, std::vector<
   // the tree must hold exactly the model (it was built by insertions only); otherwise the comparison below is meaningless
   std::map<Simplex, double> got, want;
   for (size_t i = 0; i < order.size(); ++i) got[order[i]] = E.vals[i];
-  for (size_t i = 0; i < M.sx.size(); ++i) want[M.sx[i]] = (double)(typename St::Filtration_value)M.val[i];
-  if (got != want || order.size() != M.sx.size()) { c.violation("exposure.complex_differs_from_input", sig0, "filtration_simplex_range does not enumerate the inserted complex with its values"); return false; }
+  for (size_t i = 0; i < M.sx.size(); ++i) if (!(ignore_inf && M.val[i] == kInf)) want[M.sx[i]] = (double)(typename St::Filtration_value)M.val[i];
+  if (got != want || order.size() != want.size()) { c.violation("exposure.complex_differs_from_input", sig0, "filtration_simplex_range does not enumerate the inserted complex (minus the ignored simplices) with its values"); return false; }
+  if (st.num_simplices() != M.sx.size()) { c.violation("exposure.complex_differs_from_input", sig0, "num_simplices() differs from the number of inserted simplices"); return false; }
   E.cells = oracle::cells_from_simplices(order);
-  E.dim = -1; for (auto& cl : E.cells) E.dim = std::max(E.dim, cl.dim);
+  // dimension of the COMPLEX (what persistence_dim_max refers to), ignored simplices included
+  E.dim = M.dim();
   std::string why;
   if (!E.valid(why)) { c.violation("exposure.order_not_a_filtration", sig0, why); return false; }
   if ((int)st.dimension() != E.dim) { c.violation("exposure.dimension", sig0, "dimension()=" + vh::str(st.dimension()) + " but the largest simplex has dimension " + vh::str(E.dim)); return false; }
   return true;
 }
 
+// An order of the simplices that differs from the default one ONLY among simplices of equal value and equal dimension (random
+// instead of reverse lexicographic): values stay non-decreasing along it and faces stay before cofaces, as
+// initialize_filtration(Comparator, Ignorer) requires.  (Orders whose values are not monotone are outside the property.)
+template <class St>
+void custom_tie_order(vh::Rng& r, St& st) {
+  typedef typename St::Simplex_handle SH;
+  std::map<Simplex, uint64_t> tb;
+  auto word = [&](SH a) { Simplex w; for (auto v : st.simplex_vertex_range(a)) w.push_back((long)v); std::sort(w.begin(), w.end()); return w; };
+  for (auto sh : st.complex_simplex_range()) tb[word(sh)] = r.next();
+  auto cmp = [&](SH a, SH b) {
+    if (!(st.filtration(a) == st.filtration(b))) return st.filtration(a) < st.filtration(b);
+    int da = st.dimension(a), db = st.dimension(b); if (da != db) return da < db;
+    Simplex wa = word(a), wb = word(b);
+    uint64_t ta = tb[wa], tc = tb[wb]; if (ta != tc) return ta < tc;
+    return wa < wb;
+  };
+  st.initialize_filtration(cmp, [](SH) { return false; });
+}
+
 // key_limit > 0: the key type can number at most key_limit simplices; beyond, the constructor must throw std::out_of_range
 template <class Opt>
 void run_st_case(vh::Case& c, const std::string& cxname, const std::string& src, bool multi, int key_limit = 0) {
   typedef Gudhi::Simplex_tree<Opt> St;
+  typedef typename St::Filtration_value FV;
   vh::Rng& r = c.rng;
+  const std::string kname = key_limit == 127 ? "keyi8" : "key8";
   int maxs = key_limit ? (r.chance(1, 6) ? 420 : key_limit - 5) : 1400;
   FModel M = make_model(r, src, Opt::contiguous_vertices, maxs);
   if (key_limit && r.chance(1, 5) && (int)M.sx.size() < key_limit - 3) {
@@ -66,13 +96,51 @@ void run_st_case(vh::Case& c, const std::string& cxname, const std::string& src,
     while ((int)M.sx.size() < target) { M.sx.push_back({next++}); M.val.push_back(M.val[r.below(M.val.size())]); }
     M.space.known = false; M.desc += " padded_to=" + vh::str(target);
   }
+  // how the filtration order is obtained: 0 default, 1 custom comparator that re-breaks ties, 2 some simplices (with their cofaces)
+  // at +infinity and initialize_filtration(ignore_infinite_values = true)
+  int order_mode = 0;
+  if (r.chance(1, 8)) order_mode = 1;
+  else if (std::numeric_limits<FV>::has_infinity && r.chance(1, 7)) order_mode = 2;
+  if (!std::numeric_limits<FV>::has_infinity) {
+    // integral Filtration_value: the model's values are multiples of 1/2; make them integers and, half of the time, partly or all negative
+    static const std::vector<int> offs = {0, 0, 3, 5, -1, -3, -8, -1000};
+    int off = r.pick(offs);
+    for (auto& v : M.val) v = 2 * v + off;
+    M.desc += " values:=2*v+" + vh::str(off);
+    bool neg = false; for (auto v : M.val) if (v < 0) neg = true;
+    if (neg) c.count("intfv.with_negative_values");
+  }
+  if (order_mode == 2) {
+    std::map<Simplex, size_t> pos; for (size_t i = 0; i < M.sx.size(); ++i) pos[M.sx[i]] = i;
+    std::vector<size_t> by_dim(M.sx.size()); for (size_t i = 0; i < by_dim.size(); ++i) by_dim[i] = i;
+    std::stable_sort(by_dim.begin(), by_dim.end(), [&](size_t a, size_t b) { return M.sx[a].size() < M.sx[b].size(); });
+    unsigned den = 2 + (unsigned)r.below(12); size_t ninf = 0;
+    for (size_t i : by_dim) {
+      const Simplex& sx = M.sx[i];
+      if (sx.size() == 1) continue;                     // vertices stay finite
+      bool inf = r.chance(1, den);
+      for (size_t k = 0; k < sx.size() && !inf; ++k) { Simplex f; for (size_t t = 0; t < sx.size(); ++t) if (t != k) f.push_back(sx[t]); if (M.val[pos[f]] == kInf) inf = true; }
+      if (inf) { M.val[i] = kInf; ++ninf; }
+    }
+    M.desc += " infinite_simplices=" + vh::str(ninf);
+    if (ninf) { M.space.known = false; M.distinct_values = false; c.count("order.ignore_infinite.with_ignored_simplices"); }
+  }
   c.log(show_model(M));
-  const std::string sig0 = "cx=" + cxname + ",src=" + src;
+  const std::string sig0 = "cx=" + cxname + ",src=" + src + (order_mode == 1 ? ",order=custom_ties" : order_mode == 2 ? ",order=ignore_infinite" : "");
   c.count("complex." + cxname);
   St st;
   build_tree(r, M, st);
+  if (order_mode == 1) { c.log("initialize_filtration(comparator: value, dimension, random tie-break; nothing ignored)"); custom_tie_order(r, st); c.count("order.custom_ties"); }
+  if (order_mode == 2) { c.log("initialize_filtration(ignore_infinite_values = true)"); st.initialize_filtration(true); c.count("order.ignore_infinite"); }
   Exposure E; std::vector<Simplex> order;
-  if (!expose_tree(c, st, M, E, order, sig0)) return;
+  if (!expose_tree(c, st, M, E, order, sig0, order_mode == 2)) return;
+  if (order_mode == 1) {
+    // did the custom order really differ from the default one?  (informative)
+    St st2(st); st2.initialize_filtration();
+    size_t k = 0; bool differs = false;
+    for (auto sh : st2.filtration_simplex_range()) { Simplex w; for (auto v : st2.simplex_vertex_range(sh)) w.push_back((long)v); std::sort(w.begin(), w.end()); if (k >= order.size() || w != order[k]) differs = true; ++k; }
+    if (differs) c.count("order.custom_ties.differs_from_default");
+  }
   if (key_limit && (int)st.num_simplices() > key_limit) {
     c.log("expect std::out_of_range from the constructor (" + vh::str(st.num_simplices()) + " simplices)");
     bool thrown = false;
@@ -80,11 +148,11 @@ void run_st_case(vh::Case& c, const std::string& cxname, const std::string& src,
       if (multi) { Gudhi::persistent_cohomology::Persistent_cohomology<St, Multi_field> pc(st, r.chance(1, 2)); }
       else { Gudhi::persistent_cohomology::Persistent_cohomology<St, Field_Zp> pc(st, r.chance(1, 2)); }
     } catch (const std::out_of_range&) { thrown = true; }
-    c.count("key8.over_limit");
+    c.count(kname + ".over_limit");
     if (!thrown) { c.violation("key_range.out_of_range_expected", sig0, vh::str(st.num_simplices()) + " simplices accepted with 8-bit keys"); }
     return;
   }
-  if (key_limit) { c.count("key8.within_limit"); if ((int)st.num_simplices() >= key_limit - 2) c.count("key8.at_limit"); }
+  if (key_limit) { c.count(kname + ".within_limit"); if ((int)st.num_simplices() >= key_limit - 2) c.count(kname + ".at_limit"); }
   run_tuples(c, st, E, &M, M.distinct_values, multi, sig0);
 }
 
@@ -100,11 +168,30 @@ inline void run_hasse_case(vh::Case& c, const std::string& src, bool multi) {
   build_tree(r, M, *st);
   Exposure E; std::vector<Simplex> order;
   if (!expose_tree(c, *st, M, E, order, sig0)) return;
-  // documented precondition of the conversion: key(sh) is the rank of sh in the filtration
-  int cnt = 0;
-  for (auto sh : st->filtration_simplex_range()) st->assign_key(sh, cnt++);
-  c.log("Hasse_complex(simplex tree with keys in filtration order); simplex tree destroyed");
-  H h(*st);
+  std::unique_ptr<H> hp;
+  if (r.chance(1, 3)) {
+    // route 2: the text format read by operator>> : number of cells, then per cell "dim  positions of the facets  value"
+    std::ostringstream os; os.precision(17);
+    os << E.cells.size() << "\n";
+    for (size_t k = 0; k < E.cells.size(); ++k) {
+      os << E.cells[k].dim;
+      for (auto& f : E.cells[k].bdry) os << " " << f.first;
+      os << " " << E.vals[k] << "\n";
+    }
+    c.log("Hasse_complex read by operator>> from a stream (cells in the filtration order of the tree); simplex tree destroyed");
+    c.count("hasse.from_stream");
+    std::istringstream is(os.str());
+    hp.reset(new H);
+    is >> *hp;
+  } else {
+    // route 1; documented precondition of the conversion: key(sh) is the rank of sh in the filtration
+    int cnt = 0;
+    for (auto sh : st->filtration_simplex_range()) st->assign_key(sh, cnt++);
+    c.log("Hasse_complex(simplex tree with keys in filtration order); simplex tree destroyed");
+    c.count("hasse.from_tree");
+    hp.reset(new H(*st));
+  }
+  H& h = *hp;
   st.reset();
   // what the Hasse complex exposes: handles 0..n-1 in order; cell k is the k-th simplex of the tree
   std::vector<double> tree_vals = E.vals;
